@@ -24,6 +24,7 @@ def run(F, R, ctx):
     _run(F, R, ctx)
     park_loop_rule(F, R)
     world_stop_wait_rule(F, R)
+    registry_walk_rule(F, R)
 
 
 def _run(F, R, ctx):
@@ -237,3 +238,51 @@ def world_stop_wait_rule(F, R):
                "table and later overwrites everyone's with it" % (lib.short_name(c), cb["line"], ", ".join(sorted(set(clock)))),
                wle.loc(cb["line"]), sample=True)
     R.floor("C15.w", "broadcasts of the global table in with_locked_env", n, 2)
+
+
+def registry_walk_rule(F, R):
+    R.rule("C15.v", "a walk over the thread registry visits every entry: in each Synchronizer method that iterates "
+                    "Synchronizer.threads (stop_threads, resume_threads, call_per_ctx, maybe_call_per_ctx, enumerate_stacks) "
+                    "the outermost loop over the registry is left only where the iteration is exhausted (the None outcome of "
+                    "next() / get(i)) or towards a panic — never from inside the body (a `break` at an entry whose thread has "
+                    "exited ends the walk for every entry registered after it). nc: the threads behind the break are not "
+                    "stopped, drained or handed the new global table, so they never see a completed define / set!")
+    n = 0
+    for name, fn in sorted(F.fns.items()):
+        if not re.search(r"\{impl Synchronizer\}::\w+$", name) or not name.startswith("steel::"):
+            continue
+        if not any(e[1] == "Synchronizer" and e[2] == "threads" for _, _, e in fn.events("fld")):
+            continue
+        heads = [(i, b) for i, b in fn.calls()
+                 if (re.search(r"Iterator for Iter<T>\}::next$|\{impl \[T\]\}::get$|Iterator for IterMut<T>\}::next$", b["callee"])
+                     and any("ThreadContext" in t for t in b["targs"]))]
+        if not heads:
+            continue
+        nodes = [i for i, b in enumerate(fn.blocks) if not b["c"]]
+        comps = lib.sccs(nodes, lambda x: [t for t in fn.succ(x)])
+        for h, hb in heads:
+            comp = [c for c in comps if h in c and len(c) > 1]
+            if not comp:
+                continue
+            comp = set(comp[0])
+            # the switch on the iteration's result
+            nxt, hops = hb.get("ret"), 0
+            while nxt is not None and fn.blocks[nxt]["k"] == "goto" and hops < 3:
+                nxt, hops = fn.blocks[nxt]["s"][0], hops + 1
+            n += 1
+            bad = []
+            for u in comp:
+                for v in fn.succ(u):
+                    if v in comp or u == nxt:
+                        continue
+                    # leaving towards a panic / unreachable only is fine
+                    r = fn.reachable_from([v])
+                    if any(x in r for x in fn.returns()):
+                        bad.append((u, v))
+            R.inst("C15.v", "%s / the registry loop ends only when the registry is exhausted" % fn.short(), not bad,
+                   "%s leaves its loop over Synchronizer.threads from inside the body (block at line %s) and goes on to return: "
+                   "the entries after that point are never visited — a thread registered after one that has exited is not "
+                   "stopped / resumed / handed the new global table" % (
+                       fn.short(), fn.blocks[bad[0][0]].get("line") if bad else ""), fn.loc(fn.blocks[bad[0][0]].get("line") if bad else None),
+                   sample=True)
+    R.floor("C15.v", "walks over the thread registry", n, 3)
